@@ -45,7 +45,42 @@ func wiringCases() []WiringCase {
 	for _, s := range []string{"tcp+tls", "unix+tls", "https", "wss"} {
 		out = append(out, WiringCase{"upstream-unloadable-tls", s})
 	}
+	// a dns:// upstream whose list of resolvers (?dns=a,b) is malformed: the URL parses, the list
+	// is read when the upstream connects - a configuration error there, never a crash
+	for _, v := range dnsResolverLists {
+		out = append(out, WiringCase{"upstream-dns-resolvers", v})
+	}
 	return out
+}
+
+var dnsResolverLists = []string{"", ",", "127.0.0.1:1,", ",127.0.0.1:1", "t", "tc", "tcp", "tcp:", "tcp:/", "tcp://", "u", "udp:/", "udp://", "tcp://127.0.0.1:1", "udp://127.0.0.1:1", "127.0.0.1:1", "::", "[", "x y", "host:notaport", "tcp://,udp://"}
+
+// runDnsResolverList: the scheme field carries the value of the dns= parameter.
+func runDnsResolverList(w WiringCase) (kind, detail string) {
+	url := "dns://example.org?direct=false&dns=" + w.Scheme
+	var list upstream.Upstreams
+	if err := list.UnmarshalFlag(url); err != nil {
+		return "", "" // refused when parsed: a configuration error
+	}
+	done := make(chan string, 1)
+	go func() {
+		defer func() {
+			if p := recover(); p != nil {
+				done <- fmt.Sprint(p)
+			}
+		}()
+		list.Data[0].Connect(&cert.ClientConfig{}, false)
+		done <- ""
+	}()
+	select {
+	case p := <-done:
+		if p != "" {
+			return "panic|dns-resolver-list", fmt.Sprintf("upstream %s: connecting panicked: %s", url, p)
+		}
+	case <-time.After(3 * time.Second):
+		// still trying resolvers: no crash
+	}
+	return "", ""
 }
 
 func freePort() int {
@@ -111,6 +146,9 @@ func runWiring(w WiringCase) (kind, detail string) {
 			kind, detail = "panic", fmt.Sprint(p)
 		}
 	}()
+	if w.Wiring == "upstream-dns-resolvers" {
+		return runDnsResolverList(w)
+	}
 	p := pki.Real()
 	if w.Wiring == "server" {
 		wantTLS := serverTable[w.Scheme].tls
